@@ -170,6 +170,25 @@ def c02c(ctx):
                      b.name, a1.line, a2.line), detail="value derives from %s" % sorted(map(repr, src))[:3])
 
 
+def c02c2(ctx):
+    prog = ctx.prog
+    o = ctx.ob("C02.c", "check-then-act/summary", "K7", "no blind overwrite of a shared concurrent map on a branch decided by an earlier probe of the same map (use the entry API to re-check)")
+    findings, examined = lockgap.find_check_then_act(prog, ["qbice", "qbice_storage"])
+    o.sites = examined
+    # positive anchors: the legitimate probe-then-entry sites must still be recognised as probes
+    probes = sum(len(b.calls(lambda f, t: bool(lockgap.PROBE.search(f["path"])))) for b in prog.all_bodies(["qbice", "qbice_storage"]))
+    writes = sum(len(b.calls(lambda f, t: bool(lockgap.BLIND_WRITE.search(f["path"])))) for b in prog.all_bodies(["qbice", "qbice_storage"]))
+    o.sites += probes + writes
+    if probes < 8 or writes < 2:
+        ctx.fail(o, "(program)", "the probe/overwrite recogniser lost its anchors (probes=%d, blind writes=%d)" % (probes, writes))
+    for b, p, w in findings:
+        ctx.touch(b)
+        oo = ctx.ob("C02.c", "check-then-act/%s" % b.name, "K7", o.desc)
+        oo.sites = 1
+        ctx.fail(oo, w, "%s probes a shared map (line %d) and then, on the branch chosen by that probe, overwrites the entry with %s without re-checking under the bucket lock: "
+                 "two tasks that both saw the key absent replace each other's value (e.g. a caller's backward edge is lost)" % (b.name, p.line, w.node["fn"]["path"].rsplit("::", 1)[-1]))
+
+
 def c02d(ctx):
     prog = ctx.prog
     o = ctx.ob("C02.d", "lock-pin-predicate", "K5", "a per-query lock stays in the table while anybody references it")
@@ -269,5 +288,5 @@ def c02e(ctx):
 
 
 def run(ctx):
-    for c, f in (("C02.a", c02a), ("C02.b", c02b), ("C02.c", c02c), ("C02.d", c02d), ("C02.e", c02e)):
+    for c, f in (("C02.a", c02a), ("C02.b", c02b), ("C02.c", c02c), ("C02.c", c02c2), ("C02.d", c02d), ("C02.e", c02e)):
         ctx.run_clause(c, f)
